@@ -44,7 +44,8 @@ THEOREMS = [
     "C05.dict_last_value", "C05.seq_items", "C05.empty_and_absent", "C05.final_delim", "C05.final_delim_map",
     "C05.nesting", "C05.nesting_every_derivation", "C05.end_to_end_json_partial",
     "C05.lines_cut_at_newline_only", "C05.seq_items_executed", "C05.constructor_is_ll_constructor",
-    "C05.squash_around_items", "C05.no_exceptions", "C05.any_token_except", "C05.squash_data",
+    "C05.choice_elements_squashed", "C05.squash_around_items", "C05.no_exceptions", "C05.any_token_except",
+    "C05.squash_data",
 ]
 
 RULE = ("one case = one grammar (real LLParser rebuilt from a JSON spec) + 8-14 rendered values, or 20 template "
@@ -1725,6 +1726,196 @@ def f7_cases(rng, tier):
             yield c
 
 
+# ---- family 8: sequences whose elements are choice symbols / wrappers of choice symbols / containers, nested
+def f8_cases(rng, tier):
+    quick = tier == "quick"
+    shapes = [(["VALUE", ";"], True), (["ITEM", "BLOCK"], False), (["VALUE"], True), (["WRAP", "#", "BLOCK"], False),
+              ([";", "ITEM2", "VALUE"], True)]
+
+    def gen_seq(shape, d):
+        elems, block_in_value = shape
+        out = []
+        for _ in range(rng.choice([0, 1, 2, 3, 5])):
+            out.append(gen_el(shape, rng.choice(elems), d))
+        return out
+
+    def gen_value(shape, d):
+        r = rng.random()
+        if r < 0.3 or d > 3:
+            return ["W", rng.choice(WORDS)]
+        if r < 0.45:
+            return ["N", str(rng.randrange(50))]
+        if r < 0.65:
+            return ["L", [gen_value(shape, d + 1) for _ in range(rng.choice([0, 1, 2, 3]))]]
+        if r < 0.85 or not shape[1]:
+            return ["M", [[rng.choice(["k", "kk", "z"]), gen_value(shape, d + 1)] for _ in range(rng.choice([0, 1, 2]))]]
+        return ["B", gen_seq(shape, d + 1)]
+
+    def gen_el(shape, sym, d):
+        if sym in (";", "#"):
+            return ["T", sym]
+        if sym == "BLOCK":
+            return ["B", gen_seq(shape, d + 1)] if d < 3 else ["T2"]
+        if sym == "ITEM2":
+            return ["I2", rng.choice(WORDS), str(rng.randrange(9))]
+        return gen_value(shape, d)
+
+    def render(shape, v):
+        k = v[0]
+        if k in ("W", "N", "T"):
+            return v[1]
+        if k == "T2":
+            return "(" + ws(rng) + ")"
+        if k == "I2":
+            return v[1] + ws(rng) + "=" + ws(rng) + v[2]
+        if k == "L":
+            return "[" + ws(rng) + ("," + ws(rng)).join(render(shape, x) + ws(rng) for x in v[1]) + "]"
+        if k == "M":
+            return "{" + ws(rng) + ("," + ws(rng)).join(
+                a + ws(rng) + ":" + ws(rng) + render(shape, x) + ws(rng) for a, x in v[1]) + "}"
+        return "(" + ws(rng) + sep(rng).join(render(shape, x) for x in v[1]) + ws(rng) + ")"
+
+    def expv(v):
+        k = v[0]
+        if k in ("W", "N", "T"):
+            return v[1]
+        if k == "T2":
+            return {"te": "BLOCK", "ch": ["(", {"seq": []}, ")"]}
+        if k == "I2":
+            return {"te": "ITEM2", "ch": [v[1], "=", v[2]]}
+        if k == "L":
+            return [expv(x) for x in v[1]]
+        if k == "M":
+            out = []
+            for a, x in v[1]:
+                e = expv(x)
+                for ent in out:
+                    if ent[0] == a:
+                        ent[1] = e
+                        break
+                else:
+                    out.append([a, e])
+            return {"map": out}
+        return {"te": "BLOCK", "ch": ["(", {"seq": [expel(x) for x in v[1]]}, ")"]}
+
+    def expel(v):
+        name = {"W": "WORD", "N": "NUMBER", "T": v[1] if v[0] == "T" else None, "T2": "BLOCK", "I2": "ITEM2", "L": "LIST",
+                "M": "MAP", "B": "BLOCK"}[v[0]]
+        return {"el": name, "v": expv(v)}
+
+    for shape in shapes:
+        for _ in range(8 if quick else 80):
+            elems, biv = shape
+            value_alts = [["WORD"], ["NUMBER"], ["LIST"], ["MAP"]] + ([["BLOCK"]] if biv else [])
+            prods = [["E", "plain", [["SEQ"]]], ["SEQ", "seq", list(elems)], ["VALUE", "plain", value_alts],
+                     ["ITEM", "plain", [["VALUE"]]], ["WRAP", "plain", [["ITEM"]]], ["ITEM2", "plain", [["WORD", "=", "NUMBER"]]],
+                     ["LIST", "list", ["[", "VALUE", ",", "]", None, None]],
+                     ["MAP", "map", ["{", "WORD", ":", "VALUE", ",", "}", None, None]],
+                     ["BLOCK", "plain", [["(", "SEQ", ")"]]]]
+            used = set(elems) | {"VALUE", "LIST", "MAP", "SEQ", "E"} | ({"BLOCK"} if biv or "BLOCK" in elems else set())
+            if "WRAP" in elems:
+                used |= {"ITEM"}
+            prods = [p_ for p_ in prods if p_[0] in used]
+            spec = {"prods": prods, "keep": None, "smart": rng.random() < 0.5, "start": "E"}
+            items = []
+            for _ in range(8):
+                seq = gen_seq(shape, 0)
+                # ';' / '#' elements directly followed by a word are fine; two words need a blank
+                items.append({"text": ws(rng) + sep(rng).join(render(shape, x) for x in seq) + ws(rng),
+                              "exp": ["ok", {"seq": [expel(x) for x in seq]}], "size": [len(seq), 2],
+                              "tags": ["f8-seq-of-" + "+".join(elems)]})
+            c = make_case(spec, items, {"kind": "f8", "elems": elems})
+            if c is not None:
+                yield c
+
+
+# ---- family 9: a non-terminal-first alternative mixed with several alternatives sharing a first token, in every order
+def f9_cases(rng, tier):
+    quick = tier == "quick"
+
+    def gen_arg(d):
+        r = rng.random()
+        if r < 0.3 or d > 3:
+            return ["W", rng.choice(WORDS)]
+        if r < 0.45:
+            return ["Q", rng.choice(WORDS)]
+        if r < 0.55:
+            return ["N", str(rng.randrange(50))]
+        if r < 0.8:
+            return ["P", rng.choice(WORDS), gen_arg(d + 1)]
+        return ["L", [gen_arg(d + 1) for _ in range(rng.choice([0, 1, 2, 3]))]]
+
+    def render(v):
+        if v[0] in ("W", "N"):
+            return v[1]
+        if v[0] == "Q":
+            return v[1] + ws(rng) + "@"
+        if v[0] == "P":
+            return v[1] + ws(rng) + "=" + ws(rng) + render(v[2])
+        return "(" + ws(rng) + ("," + ws(rng)).join(render(x) + ws(rng) for x in v[1]) + ")"
+
+    def expv(v):
+        if v[0] in ("W", "N"):
+            return v[1]
+        if v[0] == "Q":
+            return {"te": "ARG", "ch": [v[1], "@"]}
+        if v[0] == "P":
+            return {"te": "PAIR", "ch": [v[1], "=", expv(v[2])]}
+        return [expv(x) for x in v[1]]
+
+    for _ in range(30 if quick else 300):
+        # ordered choice: an alternative that is a prefix of another one must come later (a completed symbol is never
+        # re-parsed); NUMBER and LIST may stand anywhere
+        alts = [["PAIR"], ["WORD", "@"], ["WORD"]]
+        for extra in (["NUMBER"], ["LIST"]):
+            alts.insert(rng.randrange(0, len(alts) + 1), extra)
+        kind = rng.choice(["list", "map", "seq"])
+        prods = [["E", "plain", [["TOP", ";"]]]]
+        if kind == "list":
+            prods.append(["TOP", "plain", [["WORD", "LIST"]]])
+        elif kind == "map":
+            prods.append(["TOP", "map", ["{", "WORD", ":", "ARG", ",", "}", None, None]])
+        else:
+            prods.append(["TOP", "seq", ["ARG", "#"]])
+        prods += [["LIST", "list", ["(", "ARG", ",", ")", None, None]], ["ARG", "plain", alts],
+                  ["PAIR", "plain", [["WORD", "=", "ARG"]]]]
+        spec = {"prods": prods, "keep": None, "smart": rng.random() < 0.6, "start": "E"}
+        items = []
+        for _ in range(8):
+            if kind == "list":
+                f, node = rng.choice(WORDS), ["L", [gen_arg(0) for _ in range(rng.choice([0, 1, 2, 3]))]]
+                text = f + ws(rng) + render(node)
+                top = {"te": "TOP", "ch": [f, expv(node)]}
+            elif kind == "map":
+                pairs = [[rng.choice(["k", "kk", "z"]), gen_arg(0)] for _ in range(rng.choice([0, 1, 2, 3]))]
+                text = "{" + ws(rng) + ("," + ws(rng)).join(k + ws(rng) + ":" + ws(rng) + render(v) + ws(rng) for k, v in pairs) + "}"
+                out = []
+                for k, v in pairs:
+                    e = expv(v)
+                    for ent in out:
+                        if ent[0] == k:
+                            ent[1] = e
+                            break
+                    else:
+                        out.append([k, e])
+                top = {"map": out}
+            else:
+                els = [gen_arg(0) for _ in range(rng.choice([0, 1, 2, 3]))]
+                text = (ws(rng) + "#" + ws(rng)).join(render(x) for x in els)
+                seq = []
+                for i, x in enumerate(els):
+                    if i:
+                        seq.append({"el": "#", "v": "#"})
+                    # ARG has a two-symbol alternative, so it is not squashable: every element is an ARG node
+                    seq.append({"el": "ARG", "v": expv(x)})
+                top = {"seq": seq}
+            items.append({"text": ws(rng) + text + ws(rng) + ";", "exp": ["ok", {"te": "E", "ch": [top, ";"]}],
+                          "size": [2, 2], "tags": ["f9-mixed-alternatives-" + kind]})
+        c = make_case(spec, items, {"kind": "f9", "alts": alts, "in": kind})
+        if c is not None:
+            yield c
+
+
 # ------------------------------------------------------------------ building cases
 def build_lines(case):
     lines = [case["g"], case["G"]]
@@ -1978,6 +2169,8 @@ def gen_cases(rng, tier):
     yield from f5_cases(rng, tier)
     yield from f6_cases(rng, tier)
     yield from f7_cases(rng, tier)
+    yield from f8_cases(rng, tier)
+    yield from f9_cases(rng, tier)
 
 
 def search_cases(rng, tier):
@@ -2086,7 +2279,8 @@ LEVEL_TEXT = (
     "adjustments (list_items, map_items; no hypothesis on key/assign/value symbols, they may coincide); dict(kv_pairs) keeps "
     "first-occurrence key order and the last value (map_string_keys, dict_key_order, dict_last_value); sequences are "
     "flattened in order and cleaned element-wise without loss (seq_items; seq_items_executed: the driver's toVal gives exactly "
-    "flattenSeq's leaf); C05's constructor is the LL model's constructG after template expansion "
+    "flattenSeq's leaf; choice_elements_squashed: a choice symbol / one-production wrapper vanishes around the matched "
+    "alternative whatever the flags); C05's constructor is the LL model's constructG after template expansion "
     "(constructor_is_ll_constructor); every symbol given to ProdSequence / a production "
     "list is honoured wherever AnyTokenExcept stands (any_token_except); empty brackets give [] / {}, absent optional "
     "containers keep None (empty_and_absent); a bare final delimiter can be derived only when allowed and never changes the "
@@ -2125,7 +2319,10 @@ LEVEL_NOTE = (
     "below the top frame; call sequences on one parser object with failing calls (unclosed comment, foreign character, parse "
     "error, empty text) before valid texts; one container symbol (bracket-less list / map, optional list / map, sequence) used two "
     "or three times in ONE production with different followers, any of the uses absent / empty, last use at the end of the "
-    "text or followed; maps whose key and value are the same non-terminal ending in an absent optional list.")
+    "text or followed; maps whose key and value are the same non-terminal ending in an absent optional list; sequences "
+    "listing choice symbols, wrappers of choice symbols, tokens and blocks as elements, nested through BLOCK / lists / maps; "
+    "item / value / element symbols mixing a non-terminal-first alternative with alternatives sharing a first token "
+    "(PAIR | WORD '@' | WORD, NUMBER and LIST anywhere) in lists, maps and sequences.")
 TECHNIQUE = ("Lean 4 theorems over an executable structural-recursive model of the templates and the cleanuper (derivation "
              "shapes as inductive predicates, case analysis over all option fields) + translator for generated names + "
              "composition with the LL parser model (constructor + parse loop; a local 'predicted by ordered choice' lemma for "
